@@ -298,6 +298,8 @@ def run_random(case, ctx, gen_opts=None):
     pit.eval()
     mrng = random.Random(case['seed'] + 5)
     assign = pitlib.apply_channel_masks(pit, mrng, case['mask_mode'])
+    from vf import neutral
+    neutral.maybe_freeze(pit, case['seed'])     # a frozen parameter group changes nothing
     expect = assign_time_masks(pit, mrng, case['time_style'])
     for f in prog['features']:
         ctx.cls('feat:' + f)
